@@ -39,8 +39,9 @@ import (
 var typeSets = []string{"shared", "recursive", "disjoint", "generated", "mixed"}
 
 type raceImpl struct {
-	child     string
-	childNote string
+	child      string
+	childNote  string
+	deadlocked bool
 }
 
 func (r *raceImpl) Gen(h *vh.H, i int) string {
@@ -162,6 +163,11 @@ func (r *raceImpl) Exec(h *vh.H, op string) string {
 	if len(p) != 6 || p[0] != "race" {
 		return "bad-op"
 	}
+	if r.deadlocked {
+		// every further child would sit out its watchdog too; the finding is already recorded
+		h.Count("skipped-after-deadlock")
+		return "skipped-after-deadlock"
+	}
 	bin := r.childBinary(h)
 	ctx, cancel := context.WithTimeout(context.Background(), 180*time.Second)
 	defer cancel()
@@ -205,12 +211,14 @@ func (r *raceImpl) Exec(h *vh.H, op string) string {
 				fail(f[1], f[2])
 			}
 		case strings.HasPrefix(line, "DEADLOCK"):
+			r.deadlocked = true
 			fail("deadlock", tail(stdout.String(), 1800))
 		case strings.HasPrefix(line, "DONE "):
 			calls, _ = strconv.Atoi(strings.TrimPrefix(line, "DONE "))
 		}
 	}
 	if ctx.Err() != nil {
+		r.deadlocked = true
 		fail("deadlock", "child did not finish within 180 s")
 	} else if err != nil && fails == 0 {
 		fail("child-crash", err.Error()+"\n"+tail(se, 1500))
@@ -525,6 +533,10 @@ func unlinkedMark(root j5schema.RootSchema) string {
 	return bad
 }
 
+// a round normally takes well under a second (a few seconds under -race with 64 goroutines on a
+// loaded machine)
+const watchdog = 25 * time.Second
+
 func childMain(args []string) {
 	if len(args) != 5 {
 		fmt.Println("DIFF bad-op usage")
@@ -594,8 +606,8 @@ func childMain(args []string) {
 		close(start)
 		select {
 		case <-done:
-		case <-time.After(60 * time.Second):
-			fmt.Printf("DEADLOCK round %d set %s: goroutines still running after 60 s\n", round, set)
+		case <-time.After(watchdog):
+			fmt.Printf("DEADLOCK round %d set %s: goroutines still running after %s\n", round, set, watchdog)
 			_ = pprof.Lookup("goroutine").WriteTo(os.Stdout, 1)
 			os.Exit(3)
 		}
